@@ -263,7 +263,10 @@ def compile_plan(plan, world, root):
         lines.append("user %d %s" % (int(uid), penc(name)))
     for gid, name in sorted(plan.get("groups", {}).items(), key=lambda kv: int(kv[0])):
         lines.append("group %d %s" % (int(gid), penc(name)))
-    lines.append("budget %d" % plan.get("budget", default_budget(world, 1)))
+    budget = plan.get("budget", default_budget(world, 1))
+    if plan.get("out_accept"):
+        budget += 400000  # every short write is one event; the stream may be written byte by byte
+    lines.append("budget %d" % budget)
     if plan.get("fifo_block") is not None:
         lines.append("fifo_block %d" % plan["fifo_block"])
     return "\n".join(lines) + "\n"
